@@ -33,8 +33,7 @@ def pad0 (w n : Nat) : String :=
 /-- `<seconds>@<RFC 3339 in UTC>` for years 1..9999, `<seconds>@-` otherwise -/
 def showTime (s : Int) : String :=
   if s ≥ -62135596800 ∧ s ≤ 253402300799 then
-    let days := s / 86400          -- Int division rounds toward −∞ for a positive divisor (`Int.div` is T-rounding, `/` is `Int.div`… use emod)
-    let days := if s % 86400 < 0 then days - 1 else days
+    let days := s / 86400          -- `/` on Int is Euclidean: rounds toward −∞ for a positive divisor
     let sod := (s - days * 86400).toNat
     let (y, m, d) := civilFromDays days
     s!"{s}@{pad0 4 y}-{pad0 2 m}-{pad0 2 d}T{pad0 2 (sod / 3600)}:{pad0 2 (sod / 60 % 60)}:{pad0 2 (sod % 60)}Z"
